@@ -25,7 +25,7 @@ claimed["C13"] = dict(
    text="Static io-discipline analysis over the whole (de)serialization closure decides, for every reader chunking, truncation point and writer failure "
         "offset at once, that no stream is consumed with a short-read-unsafe Read, that every I/O or nested error leaves the function as a non-nil error "
         "(callbacks included; only io.EOF at a record boundary may become success), that every operation's byte count reaches the returned total, that no fallible call is deferred (its error could never reach the caller), that "
-        "each restore function succeeds only behind a post-read consistency test, that the restored object carries the constructor's configuration, and that a record buffer reused across records has every byte it assigns assigned on every path to the write. Round-trip equality of the restored forest is not decided.",
+        "each restore function succeeds only behind a post-read consistency test, that the restored object carries the constructor's configuration, that a record buffer reused across records has every byte it assigns assigned on every path to the write, and that the caller's reader is never handed to a wrapper that may read ahead of the reported count. Round-trip equality of the restored forest is not decided.",
    ref="DESIGN.md 5/C13, engines E6+E2",
    technique="static error-propagation (dominance/region analysis on go/ssa), who-may-call rule for raw Read, typed-AST count accumulation, must-pass-through gate (custom analyzer)")
 
@@ -35,7 +35,7 @@ claimed["C03"] = dict(
         "candidate; success is returned only behind 'candidates == matches'; the hashing core sees caller-supplied hashes only behind a length check and behind a refusal of the reserved zero hash (which the core "
         "would move up unhashed); a failing return of the core is guarded by a comparison of the claimed position with a bound computed from the leaf count; siblinghood is never "
         "concluded from rightSib(a)==b alone; the verifiers use the positions the candidates were computed at; and on every verification path positions are used in the coordinate "
-        "system (tree layout vs the map forest's TotalRows layout) the accompanying height denotes. These are necessary conditions of soundness, decided for all inputs (five of "
+        "system (tree layout vs the map forest's TotalRows layout) the accompanying height denotes; neither input of the core's parent-hash step can be the default value of its variable. These are necessary conditions of soundness, decided for all inputs (five of "
         "them fired on the pinned tree and were repaired); that the core recomputes the right candidates (arithmetic, hashing) is not decided.",
    ref="DESIGN.md 5/C03, engine E2",
    technique="static error-propagation and guard (dominating branch edge) analysis on go/ssa, anchors resolved by role; coordinate-layout abstract interpretation of the verification paths (custom analyzer)")
@@ -44,7 +44,7 @@ claimed["C04"] = dict(
    text="Static path analysis over the verification closure decides, for all inputs: a rejected Stump.Update has written nothing (no state write can reach a "
         "failing return; complete for that clause); no discarded error can be non-nil (callee error condition excluded by a dominating guard on the same SSA values); "
         "every loop matches a terminating idiom or a reviewed entry and the reviewed merge loop makes progress on every path; caller-supplied slices, and in the two "
-        "matching verifiers every computed index, are bounded by a dominating length test (a bound by another slice's length needs a dominating relation between the two lengths). "
+        "matching verifiers every computed index, are bounded by a dominating length test (a bound by another slice's length needs a dominating relation between the two lengths - also for a computed slice indexed up to the length of a caller's list). "
         "Termination of the two reviewed loops and absence of index panics in helpers are not decided.",
    ref="DESIGN.md 5/C04, engine E2",
    technique="static must-not-precede (CFG reachability with error-edge refinement), guard analysis on SSA values, loop-idiom classification on the typed AST (custom analyzer)")
@@ -94,7 +94,7 @@ claimed["C15"] = dict(
    text="Static guard and dataflow rules on the schedule generator decide, for all histories and limits, the memory bound clause: the working cache grows only "
         "under a strict len(cache) < maxMemory test on the value appended to or right after a one-element removal, and every scheduled position is read from that "
         "cache; the ordering clause: each row is sorted after its last append; and three conditions of completeness: recorded deletions are sorted ascending before de-twinning, "
-        "every recorded root state has the block's deletions applied, and the TTL table is recomputed before it is read. That positions are the right insertion slots and uniqueness are not decided.",
+        "every recorded root state has the block's deletions applied, the TTL table is recomputed before it is read, and tree/branch detection with a discarded error is applied to a tracked position only behind an exact existence test. That positions are the right insertion slots and uniqueness are not decided.",
    ref="DESIGN.md 5/C15, engine E2",
    technique="static guard analysis on SSA values, value-web dataflow, must-pass-through rules and order-class dataflow (taint to requires-sorted sinks) on go/ssa (custom analyzer)")
 claimed["C01"] = dict(
@@ -110,7 +110,7 @@ claimed["C14"] = dict(
         "hashes given in any parallel order': at every site that combines positions with hashes index by index both operands are in the same order class (caller order, "
         "sorted copy, canonical proof order of the same group); no slice still in a caller-chosen order reaches a function that requires sorted input; proof restriction "
         "succeeds only behind the coverage test and returns hashes and targets in request order; positions are used (and returned) in the coordinate system the accompanying "
-        "forest height denotes; computing missing positions never reorders the targets of the proof the caller holds. Canonicity/exactness of the combined or restricted proof and of the "
+        "forest height denotes; computing missing positions never reorders the targets of the proof the caller holds, decides what is missing by look-ups of the node store on every non-empty request, and the hashes supplied for the missing positions are read through their own cursor. Canonicity/exactness of the combined or restricted proof and of the "
         "missing positions (position arithmetic) are not decided.",
    ref="DESIGN.md 5/C14, engine E7",
    technique="static order-class dataflow: flow- and context-sensitive abstract interpretation over go/ssa with in-place-sort tracking; pairing, taint-to-sink and output-contract rules (custom analyzer)")
